@@ -283,6 +283,10 @@ func (r *Reconciler) updateInstanceWithCurrentRS(logger logr.Logger, now time.Ti
 		// No canary strategy (any more): a canary recorded while there was one is over,
 		// its nodes must not stay reserved.
 		newDaemonset.Status.Canary = nil
+		// ... and neither its reason, its conditions nor the canary annotations outlive it
+		newDaemonset.Status.Reason = ""
+		manageCanaryStatusConditions(&newDaemonset.Status, metav1.NewTime(now), false, false, "", "")
+		updateDaemonsetAnnotations = clearCanaryAnnotations(newDaemonset)
 	}
 
 	// Check if newDaemonset differs from existing daemonset, and update if so
